@@ -728,6 +728,50 @@ def oracle_docsvg(args, out):
     return _docimg_with(block, css, cb, cbh, intr, out)
 
 
+# ---------------------------------------------------------------------------------------------
+# embedding decisions of RasterImage: alpha kept, colour space, lossless pass-through, decoded pixels
+
+def oracle_embed(args, out):
+    mode, transparency, fmt, app14, rotated, has_data, optimize, quality = args
+    mode = {Fraction(1): '1'}.get(mode, mode)
+    jpeg_source = fmt in ('JPEG', 'MPO')
+    if jpeg_source and mode not in ('L', 'RGB', 'CMYK'):
+        return None
+    # the mode WeasyPrint has to embed: transparency info means an alpha channel
+    if transparency:
+        normal = 'RGBA'
+    elif mode in ('1', 'P', 'I'):
+        normal = 'RGB'
+    else:
+        normal = mode
+    if normal not in ('L', 'LA', 'RGB', 'RGBA') and not (jpeg_source and normal == 'CMYK'):
+        return None        # I;16, CMYK outside JPEG, PA, F: known findings grey16-embedded-as-rgb8 / unwritable-mode-crash
+    if out.startswith('err') or out == 'not-loaded':
+        return f'loading a {fmt} image of mode {mode} (transparency info: {transparency}) failed: {out}'
+    (got_mode, jpeg, reencoded, invert, color_space, filter_, colors3, smask, decode, pixels) = out.split()[1:]
+    alpha = normal in ('LA', 'RGBA')
+    if (smask == 'true') != alpha:
+        return (f'{fmt} image of mode {mode} (transparency info: {transparency}) has '
+                f'{"an" if alpha else "no"} alpha channel but the image XObject has '
+                f'{"an" if smask == "true" else "no"} /SMask')
+    want_space = {'L': '/DeviceGray', 'LA': '/DeviceGray', 'CMYK': '/DeviceCMYK'}.get(normal, '/DeviceRGB')
+    if color_space != want_space:
+        return f'{fmt} image of mode {mode}: /ColorSpace {color_space}, expected {want_space}'
+    lossy_requested = optimize or quality
+    if jpeg_source and not transparency:
+        if filter_ != '/DCTDecode':
+            return f'JPEG image embedded with {filter_}'
+        if not rotated and not lossy_requested and reencoded == 'true':
+            return 'JPEG re-encoded although no lossy option / rotation was requested'
+        return None
+    if filter_ != '/FlateDecode':
+        return f'{fmt} image of mode {mode} embedded with {filter_}'
+    if pixels != 'pixels-same':
+        return (f'{fmt} image of mode {mode} (transparency info: {transparency}): decoded pixels / alpha of the '
+                f'embedded stream differ from Pillow\'s convert("RGBA") of the source ({pixels})')
+    return None
+
+
 ORACLES = {
     'dis': oracle_dis, 'constraint': oracle_constraint, 'rlayout': oracle_rlayout,
     'irwh': oracle_irwh, 'irl': lambda a, o: oracle_irwh(a, o, 'inline_replaced_box_layout'),
@@ -737,7 +781,7 @@ ORACLES = {
     'rbh': oracle_rbh, 'blw': oracle_blw, 'blwcore': oracle_blw,
     'bglayer': oracle_bglayer, 'bgdraw': oracle_bgdraw, 'dedupe': oracle_dedupe, 'imgcount': oracle_imgcount,
     'drawrep': oracle_drawrep, 'rdraw': oracle_rdraw, 'docimg': oracle_docimg, 'docsvg': oracle_docsvg,
-    'svgintr': oracle_svgintr,
+    'svgintr': oracle_svgintr, 'embed': oracle_embed,
 }
 
 
